@@ -406,3 +406,28 @@ Proof.
   split; [vm_compute; reflexivity|].
   split; vm_compute; reflexivity.
 Qed.
+
+(** the hypotheses of [C08_empty_recovers] are met: a creator is killed between its O_EXCL
+    create and the metadata write; 10 s and a bit later a waiter that has read the empty file
+    eight times is about to read it again *)
+Definition demo_creator : list label := [LStart 0 0; LTryCreate 0; LStart 1 1; LTryCreate 1]%nat.
+Example C08_empty_recovery_hypotheses_satisfiable :
+  exists s0 s, reach_run (cfg_repo d2) (fun _ _ => true) init demo_creator = Some s0 /\
+    owner s0 0%nat 0%nat /\ file s0 = Some 0%nat /\ content s0 0%nat = FEmpty /\
+    step (cfg_repo d2) s0 (LKill (cproc s0 0%nat)) = Some s /\
+    file s = Some 0%nat /\ cs s 1%nat = CExists 0.
+Proof.
+  eexists. eexists.
+  split; [vm_compute; reflexivity|].
+  split; [left; exists 0%nat; vm_compute; reflexivity|].
+  split; [vm_compute; reflexivity|].
+  split; [vm_compute; reflexivity|].
+  split; [vm_compute; reflexivity|].
+  split; vm_compute; reflexivity.
+Qed.
+
+(** ... and of [C08_undecodable_like_empty]: a pre-made lock file with garbage in it *)
+Example C08_undecodable_hypotheses_satisfiable :
+  exists s, run (cfg_repo d2) (init_state (Some FGarbage) (-1) (-30000000000)) [LStart 0 0; LTryCreate 0]%nat = Some s /\
+    file s = Some 0%nat /\ content s 0%nat = FGarbage /\ cs s 0%nat = CExists 0.
+Proof. eexists. split; [vm_compute; reflexivity|]. repeat split. Qed.
